@@ -19,8 +19,11 @@ FFT_Processor_nayuki::FFT_Processor_nayuki(const int32_t N): _2N(2*N),N(N),Ns2(N
 
 void FFT_Processor_nayuki::check_alternate_real() {
 #ifndef NDEBUG
-    for (int32_t i=0; i<_2N; i++) assert(fabs(imag_inout[i])<1e-8);
-    for (int32_t i=0; i<N; i++) assert(fabs(real_inout[i]+real_inout[N+i])<1e-9);
+    // the rounding residue of the transform is proportional to the magnitude of the data
+    double scale=1.;
+    for (int32_t i=0; i<_2N; i++) if (fabs(real_inout[i])>scale) scale=fabs(real_inout[i]);
+    for (int32_t i=0; i<_2N; i++) assert(fabs(imag_inout[i])<1e-8*scale);
+    for (int32_t i=0; i<N; i++) assert(fabs(real_inout[i]+real_inout[N+i])<1e-9*scale);
 #endif
 }
 
